@@ -4,6 +4,7 @@ batch rule, and shape checks of the code the hand-written models (theories/Batch
 Everything is read from the CURRENT /repo working tree and fails closed (py2coq.Unsupported)."""
 import ast
 import os
+import re
 import sys
 
 HERE = os.path.dirname(os.path.abspath(__file__))
@@ -104,6 +105,75 @@ def _batcher_users():
     return sorted(users)
 
 
+HELPER_MODULES = {"jax/_autodiff_utils", "jax/_batching_utils", "jax/_batching_compat", "jax/nn/_builder_utils", "jax/numpy/_unary_utils",
+                  "jax/numpy/_reduction_utils", "plugin_system"}
+# user-level jax.custom_jvp / custom_vjp demo functions of the testcases (not rules of a substitute primitive)
+CUSTOM_DEMO_MODULES = {"jax/core/custom_jvp_call", "jax/core/custom_vjp_call"}
+RULE_TABLES = ("primitive_jvps", "primitive_transposes", "primitive_batchers", "fancy_primitive_batchers", "axis_primitive_batchers")
+
+
+def _rule_inventory():
+    """AST scan of every plugin module: which transformation rules it registers for its substitute primitive, and how.
+    Fails closed: every textual mention of a rule table / registration helper must be one of the recognised idioms."""
+    inv = {k: set() for k in ("jvp_hand", "jvp_derived", "forwarded", "transpose_hand", "batch_shared_broadcast", "batch_shared_unary",
+                              "batch_forwarded_reduce", "batch_derived_vmap", "batch_hand")}
+    helpers = {"register_jvp_rule": "jvp_hand", "register_fallback_jvp_rule": "jvp_hand",          # fallback = impl applied to tangents: own claim of linearity
+               "register_jvp_via_jax_jvp": "jvp_derived",
+               "register_allowlisted_original_rule_forwarding": "forwarded", "register_original_rule_forwarding": "forwarded",
+               "register_unary_elementwise_batch_rule": "batch_shared_unary", "register_reduction_batch_rule": "batch_forwarded_reduce"}
+    for root, _dirs, files in os.walk(PLUGINS):
+        for f in sorted(files):
+            if not f.endswith(".py"):
+                continue
+            p = os.path.join(root, f)
+            mod = os.path.relpath(p, PLUGINS)[:-3]
+            src = open(p).read()
+            if not any(t in src for t in RULE_TABLES) and not any(h in src for h in helpers) and "defjvp" not in src:
+                continue
+            if mod in HELPER_MODULES:
+                continue
+            tree = ast.parse(src)
+            funcs = {n.name: n for n in ast.walk(tree) if isinstance(n, ast.FunctionDef)}
+            seen_tables = 0
+            for n in ast.walk(tree):
+                if isinstance(n, ast.Assign) and len(n.targets) == 1 and isinstance(n.targets[0], ast.Subscript):
+                    tgt = ast.unparse(n.targets[0].value)
+                    tab = tgt.split(".")[-1]
+                    if tab not in RULE_TABLES:
+                        continue
+                    seen_tables += 1
+                    if tab == "primitive_jvps":
+                        inv["jvp_hand"].add(mod)
+                    elif tab == "primitive_transposes":
+                        inv["transpose_hand"].add(mod)
+                    else:
+                        rule = n.value
+                        body = None
+                        if isinstance(rule, ast.Name) and rule.id in funcs:
+                            body = ast.unparse(funcs[rule.id])
+                        elif isinstance(rule, ast.Lambda):
+                            body = ast.unparse(rule)
+                        if body is None:
+                            inv["batch_hand"].add(mod)
+                        elif "broadcast_batcher_compat(" in body:
+                            inv["batch_shared_broadcast"].add(mod)
+                        elif "jax.vmap(" in body or "vmap(" in body:
+                            inv["batch_derived_vmap"].add(mod)
+                        else:
+                            inv["batch_hand"].add(mod)
+                elif isinstance(n, ast.Call):
+                    fn = ast.unparse(n.func).split(".")[-1]
+                    if fn in helpers:
+                        inv[helpers[fn]].add(mod)
+                    elif fn in ("defjvp", "defjvps", "defvjp") and mod not in CUSTOM_DEMO_MODULES:
+                        raise Unsupported(f"{mod}: custom_jvp/custom_vjp rule definition outside the known demo modules")
+            # every textual table mention must be an assignment we classified (reads such as `x in ad.primitive_jvps` do not occur in plugins)
+            mentions = sum(len(re.findall(r"\b" + t + r"\[", src)) for t in RULE_TABLES)
+            if mentions != seen_tables:
+                raise Unsupported(f"{mod}: {mentions} rule-table subscripts in the source but {seen_tables} recognised assignments")
+    return {k: sorted(v) for k, v in inv.items()}
+
+
 def unit_GenAutodiff():
     ctxt, _ = py2coq.translate_constants(AD, ["_LINEAR_TRANSPOSE_FALLBACK_ALLOWLIST"])
     tree = ast.parse(open(AD).read())
@@ -129,6 +199,16 @@ def unit_GenAutodiff():
     users = _batcher_users()
     out.append("(* plugin modules that register the shared broadcasting batch rule (AST scan of jax2onnx/plugins) *)\n"
                "Definition BATCHER_USERS : list string := [" + "; ".join(py2coq.coq_string(u) for u in users) + "].\n")
+    inv = _rule_inventory()
+    names = {"jvp_hand": "HANDWRITTEN_JVP_PLUGINS", "jvp_derived": "DERIVED_JVP_PLUGINS", "forwarded": "FORWARDED_RULE_PLUGINS",
+             "transpose_hand": "HANDWRITTEN_TRANSPOSE_PLUGINS", "batch_shared_broadcast": "BATCH_SHARED_BROADCAST_PLUGINS",
+             "batch_shared_unary": "BATCH_SHARED_UNARY_PLUGINS", "batch_forwarded_reduce": "BATCH_FORWARDED_REDUCE_PLUGINS",
+             "batch_derived_vmap": "BATCH_DERIVED_VMAP_PLUGINS", "batch_hand": "BATCH_HANDWRITTEN_PLUGINS"}
+    out.append("(* inventory (AST scan, fail closed) of the transformation rules the plugins register for their substitute primitives:\n"
+               "   hand-written JVP / transpose rules need their own boundary tests; rules derived from the original implementation\n"
+               "   (jax.jvp / jax.vmap of the original) or forwarded from the jax.lax primitive are JAX's own rules *)")
+    for k, nm in names.items():
+        out.append(f"Definition {nm} : list string := [" + "; ".join(py2coq.coq_string(u) for u in inv[k]) + "].\n")
     return py2coq.HEADER + "\n".join(out)
 
 
